@@ -7,17 +7,118 @@ namespace FastTicc.Viterbi
 
 set_option linter.unusedSectionVars false
 
-variable {α : Type} [AddCommGroup α] [LinearOrder α] [IsOrderedAddMonoid α]
+/-! ### lemmas that hold for the bare operations used by the model -/
 
-/-! ### `argmin` -/
+section General
+variable {α : Type} [Add α] [Sub α] [LT α] [DecidableLT α] [Zero α]
 
 theorem argminUpTo_le (f : Nat → α) : ∀ n, argminUpTo f n ≤ n
   | 0 => by simp [argminUpTo]
   | n + 1 => by
     simp only [argminUpTo]
     split
-    · exact le_rfl
+    · exact Nat.le_refl _
     · exact Nat.le_succ_of_le (argminUpTo_le f n)
+
+theorem argmin_lt (f : Nat → α) {K : Nat} (hK : 0 < K) : argmin f K < K := by
+  unfold argmin
+  have := argminUpTo_le f (K - 1)
+  omega
+
+theorem argminUpTo_congr {f g : Nat → α} :
+    ∀ n, (∀ c ≤ n, f c = g c) → argminUpTo f n = argminUpTo g n
+  | 0, _ => rfl
+  | n + 1, h => by
+    have ih := argminUpTo_congr n (fun c hc => h c (Nat.le_succ_of_le hc))
+    have ha : f (argminUpTo g n) = g (argminUpTo g n) :=
+      h _ (Nat.le_succ_of_le (argminUpTo_le g n))
+    simp only [argminUpTo]
+    rw [ih, ha, h (n + 1) (Nat.le_refl _)]
+
+theorem argmin_congr {f g : Nat → α} {K : Nat} (hK : 0 < K) (h : ∀ c < K, f c = g c) :
+    argmin f K = argmin g K :=
+  argminUpTo_congr (K - 1) (fun c hc => h c (by omega))
+
+theorem totalVals_congr {f g : Nat → α} {K : Nat} (h : ∀ c < K, f c = g c)
+    (r : Nat → α) (b : α) : ∀ c < K, totalVals f r b c = totalVals g r b c := by
+  intro c hc
+  simp only [totalVals, h c hc]
+
+theorem stepFuture_congr {f g : Nat → α} {K : Nat} (hK : 0 < K) (h : ∀ c < K, f c = g c)
+    (r : Nat → α) (b : α) (c : Nat) (hc : c < K) :
+    stepFuture K f r b c = stepFuture K g r b c := by
+  have htot := totalVals_congr h r b
+  simp only [stepFuture]
+  rw [argmin_congr hK htot, htot c hc, htot _ (argmin_lt _ hK)]
+
+theorem stepPath_congr {f g : Nat → α} {K : Nat} (hK : 0 < K) (h : ∀ c < K, f c = g c)
+    (r : Nat → α) (b : α) (c : Nat) (hc : c < K) :
+    stepPath K f r b c = stepPath K g r b c := by
+  have htot := totalVals_congr h r b
+  simp only [stepPath]
+  rw [argmin_congr hK htot, htot c hc, htot _ (argmin_lt _ hK)]
+
+theorem stepPath_lt (K : Nat) (hK : 0 < K) (fut' row' : Nat → α) (b : α) (c : Nat)
+    (hc : c < K) : stepPath K fut' row' b c < K := by
+  simp only [stepPath]
+  split
+  · exact argmin_lt _ hK
+  · exact hc
+
+theorem getD_map_range {β : Type} (f : Nat → β) (d : β) {K c : Nat} (hc : c < K) :
+    ((List.range K).map f).getD c d = f c := by
+  simp [List.getD_eq_getElem?_getD, hc]
+
+theorem getD_replicate_self {β : Type} (d : β) (K c : Nat) :
+    (List.replicate K d).getD c d = d := by
+  simp only [List.getD_eq_getElem?_getD, List.getElem?_replicate]
+  split <;> rfl
+
+/-- the list-backed backward pass agrees with the closure-backed one on `[0, K)`, both for
+the future-cost row and for every label sequence read off the path matrix. -/
+theorem backFast_spec (K : Nat) (hK : 0 < K) :
+    ∀ pts : List ((Nat → α) × α),
+      (∀ c < K, (backFast K pts).1.getD c 0 = (back K pts).1 c) ∧
+      (∀ l < K, follow ((backFast K pts).2.map (fun row c => row.getD c 0)) l
+                  = follow (back K pts).2 l)
+  | [] => ⟨fun c _ => getD_replicate_self 0 K c, fun _ _ => rfl⟩
+  | [_] => ⟨fun c _ => getD_replicate_self 0 K c, fun _ _ => rfl⟩
+  | p :: q :: rest => by
+    obtain ⟨ih1, ih2⟩ := backFast_spec K hK (q :: rest)
+    constructor
+    · intro c hc
+      simp only [backFast, back]
+      rw [getD_map_range _ _ hc]
+      exact stepFuture_congr hK ih1 q.1 p.2 c hc
+    · intro l hl
+      have hrow : ((List.range K).map
+            (stepPath K (fun c => (backFast K (q :: rest)).1.getD c 0) q.1 p.2)).getD l 0
+          = stepPath K (back K (q :: rest)).1 q.1 p.2 l := by
+        rw [getD_map_range _ _ hl]
+        exact stepPath_congr hK ih1 q.1 p.2 l hl
+      simp only [backFast, back, List.map_cons, follow]
+      rw [hrow, ih2 _ (stepPath_lt K hK _ _ _ l hl)]
+
+/-- the executable refinement returns exactly what the specification-level model returns
+(`0 < K` is needed: for `K = 0` the list rows are empty and read back as `0`). -/
+theorem viterbiFast_eq_viterbi (K : Nat) (hK : 0 < K) (pts : List ((Nat → α) × α)) :
+    viterbiFast K pts = viterbi K pts := by
+  cases pts with
+  | nil => rfl
+  | cons p rest =>
+    obtain ⟨h1, h2⟩ := backFast_spec K hK (p :: rest)
+    have hstart : argmin (fun c => (backFast K (p :: rest)).1.getD c 0 + p.1 c) K
+        = argmin (fun c => (back K (p :: rest)).1 c + p.1 c) K :=
+      argmin_congr hK (fun c hc => by simp only [h1 c hc])
+    have hlt := argmin_lt (fun c => (back K (p :: rest)).1 c + p.1 c) hK
+    simp only [viterbiFast, viterbi]
+    rw [hstart, h2 _ hlt, h1 _ hlt]
+
+end General
+
+variable {α : Type} [AddCommGroup α] [LinearOrder α] [IsOrderedAddMonoid α]
+
+/-! ### `argmin` -/
 
 theorem argminUpTo_min (f : Nat → α) : ∀ n c, c ≤ n → f (argminUpTo f n) ≤ f c
   | 0, c, h => by
@@ -34,11 +135,6 @@ theorem argminUpTo_min (f : Nat → α) : ∀ n c, c ≤ n → f (argminUpTo f n
       split
       · exact le_rfl
       · next hn => exact not_lt.mp hn
-
-theorem argmin_lt (f : Nat → α) {K : Nat} (hK : 0 < K) : argmin f K < K := by
-  unfold argmin
-  have := argminUpTo_le f (K - 1)
-  omega
 
 theorem argmin_min (f : Nat → α) {K : Nat} (c : Nat) (hc : c < K) :
     f (argmin f K) ≤ f c :=
@@ -87,13 +183,6 @@ theorem stepFuture_eq (K : Nat) (fut' row' : Nat → α) (b : α) (hb : 0 ≤ b)
     rw [if_neg hne]
     rfl
   · simp only [if_neg h, if_true, add_zero]
-
-theorem stepPath_lt (K : Nat) (hK : 0 < K) (fut' row' : Nat → α) (b : α) (c : Nat)
-    (hc : c < K) : stepPath K fut' row' b c < K := by
-  simp only [stepPath]
-  split
-  · exact argmin_lt _ hK
-  · exact hc
 
 /-! ### specification unfolding -/
 
